@@ -108,6 +108,8 @@ struct State {
     mutex_holder: HashMap<usize, (usize, usize)>,
     abort_reason: Option<String>,
     body_deliveries: u32,
+    /// Locations whose operations are not scheduling points (nobody else ever touches them).
+    quiet: std::collections::HashSet<usize>,
     deliver: Option<DeliverFn>,
     /// Safety net: snapshots held by read sections (thr, depth, ptr) and freed pointers, so that
     /// a schedule is stopped *before* the real code would touch freed memory.
@@ -179,6 +181,9 @@ fn hook_before(op: &Op) -> u32 {
         park_forever();
     }
     if !st.active {
+        return 0;
+    }
+    if op.loc != 0 && st.quiet.contains(&op.loc) {
         return 0;
     }
     loop {
@@ -512,6 +517,12 @@ pub struct RunCfg {
     /// `deliver_requires_lib` a delivery of such a signal is only offered once it is.
     pub watch: Vec<c_int>,
     pub deliver_requires_lib: bool,
+    /// Called (once, on the controller thread) when no thread can step although not all are
+    /// done; returning true means it changed something (e.g. closed an iterator so that a blocked
+    /// consumer wakes) and scheduling should go on. The run is still reported as stuck.
+    pub on_stuck: Option<Arc<dyn Fn() -> bool + Send + Sync + 'static>>,
+    /// Addresses whose operations are logged but are no scheduling points.
+    pub quiet: Vec<usize>,
     /// What a delivery runs (default: the registry's real dispatcher).
     pub deliver: Option<DeliverFn>,
 }
@@ -531,6 +542,8 @@ impl Default for RunCfg {
             max_solo_spin: 64,
             watch: vec![],
             deliver_requires_lib: false,
+            on_stuck: None,
+            quiet: vec![],
             deliver: None,
         }
     }
@@ -540,6 +553,9 @@ impl Default for RunCfg {
 pub enum Outcome {
     Done,
     Deadlock,
+    /// Everybody was blocked at some point; the scenario's on_stuck callback released them and
+    /// the run then completed (the description says who was blocked on what).
+    Unstuck(String),
     /// A thread kept spinning although nobody else could step any more.
     Livelock,
     StepLimit,
@@ -586,6 +602,7 @@ pub fn run(bodies: Vec<Body>, strategy: &mut dyn Strategy, cfg: &RunCfg) -> RunR
         st.epoch = epoch;
         st.active = true;
         st.deliver = cfg.deliver.clone();
+        st.quiet = cfg.quiet.iter().copied().collect();
         for _ in 0..n {
             st.threads.push(VThread {
                 status: Status::Spawned,
@@ -652,6 +669,8 @@ pub fn run(bodies: Vec<Body>, strategy: &mut dyn Strategy, cfg: &RunCfg) -> RunR
     let mut preemptions = 0usize;
     let mut step = 0usize;
     let mut solo_spin = 0usize;
+    let mut was_stuck = false;
+    let mut stuck_desc = String::new();
     let mut is_lib: HashMap<c_int, bool> = HashMap::new();
     let outcome;
     let mut st = s.m.lock().unwrap();
@@ -681,7 +700,7 @@ pub fn run(bodies: Vec<Body>, strategy: &mut dyn Strategy, cfg: &RunCfg) -> RunR
             }
         }
         if st.threads.iter().all(|t| t.status == Status::Done) {
-            outcome = Outcome::Done;
+            outcome = if was_stuck { Outcome::Unstuck(stuck_desc.clone()) } else { Outcome::Done };
             break;
         }
         if step >= cfg.max_steps {
@@ -784,6 +803,29 @@ pub fn run(bodies: Vec<Body>, strategy: &mut dyn Strategy, cfg: &RunCfg) -> RunR
             // step again this is a deadlock of the threads; report it as such unless a
             // delivery is possible (then let the strategy decide).
             if choices.is_empty() {
+                if !was_stuck {
+                    was_stuck = true;
+                    let desc: Vec<String> = st
+                        .threads
+                        .iter()
+                        .enumerate()
+                        .filter(|(_, t)| t.status == Status::Parked)
+                        .map(|(i, t)| format!("{}:{}", i, t.pending.map(|o| o.name).unwrap_or("")))
+                        .collect();
+                    stuck_desc = desc.join(",");
+                    push_ctl(&mut st, CTL_THREAD, 0, "stuck", 0, 0);
+                    if let Some(last) = st.log.last_mut() {
+                        last.name = format!("stuck:{}", stuck_desc);
+                    }
+                    if let Some(f) = cfg.on_stuck.clone() {
+                        drop(st);
+                        let go_on = f();
+                        st = s.m.lock().unwrap();
+                        if go_on {
+                            continue;
+                        }
+                    }
+                }
                 outcome = Outcome::Deadlock;
                 break;
             }
